@@ -35,37 +35,77 @@ Proof.
   exists js. split; [exact W|]. split; [apply read_back_logfile | exact V].
 Qed.
 
-(* an incident file (NonTrailingIncidentReporter): header with the trigger, then everything buffered in number order *)
-Theorem incident_file_reads_back L (payload : event -> pv) (msg : event -> Z) from rx ty c sz b i e : lims_ok L ->
-  (forall x, In x (all_buffered (x_bufs (add_event c sz b i e))) -> is_event (payload x) (e_num x) (e_lvl x) (msg x)) ->
-  c_fault c = NoFault -> c_qual c = true -> incident_level <= e_lvl e -> i_rep i = None -> i_zombie i = false ->
-  1 <= limit_of sz (e_fac e) (e_lvl e) -> c_trailing c = false ->
-  let a := add_event c sz b i e in
-  exists lines,
-    i_files (x_inc a) = i_files i ++ [e :: lines] /\ In e lines /\
-    (exists jh d, serialize L (header ty (payload e) []) = Ok jh /\ trigger_of_header jh = Some d /\
-                  view3 d = fields (e_num e) (e_lvl e) (msg e)) /\
-    (exists js, write_lines L from rx (map payload lines) = Some js /\ map line_view js = map (ev_fields msg) lines).
+(* ---- LINE BY LINE (review 2, finding 3): no hypothesis on the file as a whole.  Every line whose own event is an
+   is_event reads back its number / level / message, every scalar member of every event dict reads back (line_ok of
+   lib/LogJsonProofs.v); a format event or a non-integer number elsewhere in the file takes nothing away *)
+Lemma Forall2_map_l {A B C} (P : B -> C -> Prop) (f : A -> B) l js : Forall2 P (map f l) js -> Forall2 (fun x j => P (f x) j) l js.
 Proof.
-  intros HL Hp H1 H2 H3 H4 H5 H6 H7 a.
+  revert js. induction l as [|x t IH]; intros js H; inversion H; subst; constructor; [assumption | apply IH; assumption].
+Qed.
+
+Lemma lines_read_back_each L (payload : event -> pv) from rx (lines : list event) : lims_ok L ->
+  exists js, write_lines L from rx (map payload lines) = Some js /\ Forall2 (fun x j => line_ok (payload x) j) lines js.
+Proof.
+  intros HL. destruct (file_lines_read_back L from rx (map payload lines) HL) as (js & W & F).
+  exists js. split; [exact W | apply Forall2_map_l; exact F].
+Qed.
+
+Theorem logfile_lines_read_back L (payload : event -> pv) from rx name_bz2 (evs : list event) : lims_ok L ->
+  exists js, write_lines L from rx (map payload evs) = Some js /\
+             read_back name_bz2 (write_codec logfile_codec_from name_bz2 false) js = Some js /\
+             Forall2 (fun x j => line_ok (payload x) j) evs js.
+Proof.
+  intros HL. destruct (lines_read_back_each L payload from rx evs HL) as (js & W & F).
+  exists js. split; [exact W|]. split; [apply read_back_logfile | exact F].
+Qed.
+
+Lemma trigger_in_sorted c sz b i e : 1 <= limit_of sz (e_fac e) (e_lvl e) ->
+  In e (sort_by_num (all_buffered (x_bufs (add_event c sz b i e)))).
+Proof.
+  intros H6. apply sort_in. eapply buf_get_in_all. apply trigger_buffered. exact H6.
+Qed.
+
+(* an incident file, BOTH reporters (finding 4: the default reporter is the trailing one): the lines written at the
+   moment of the trigger are everything buffered, the trigger among them; NonTrailing publishes  trigger :: lines  at
+   once, the trailing reporter holds them (plus later events) until its timer / quota publishes  trigger :: lines ++ ..
+   (C18_incident_timer_publishes, C18_incident_trailing).  The header line reads back the trigger's number / level /
+   message if the trigger is an is_event, and any scalar member otherwise; the event lines read back line by line.
+   Guard (exact, see incident_lost_when_sort_raises): no buffered number on which isinstance(.., int) raises. *)
+Theorem incident_file_reads_back L (payload : event -> pv) from rx ty c sz b i e : lims_ok L ->
+  c_fault c = NoFault -> c_qual c = true -> incident_level <= e_lvl e -> i_rep i = None -> i_zombie i = false ->
+  1 <= limit_of sz (e_fac e) (e_lvl e) ->
+  let a := add_event c sz b i e in
+  nohost (x_bufs a) ->
+  exists lines,
+    (c_trailing c = false -> i_files (x_inc a) = i_files i ++ [e :: lines]) /\
+    (c_trailing c = true -> i_rep (x_inc a) = Some (mkRep e lines TRAILING_EVENT_LIMIT true)) /\
+    In e lines /\ Permutation.Permutation lines (all_buffered (x_bufs a)) /\
+    (exists jh, serialize L (header ty (payload e) []) = Ok jh /\
+       (forall n l m, is_event (payload e) n l m -> exists d, trigger_of_header jh = Some d /\ view3 d = fields n l m) /\
+       (forall kv s v j0, is_event_dict (payload e) kv -> pfield s kv = Some v -> stable v j0 ->
+          exists d, trigger_of_header jh = Some d /\ jfield s d = Some j0)) /\
+    (exists js, write_lines L from rx (map payload lines) = Some js /\ Forall2 (fun x j => line_ok (payload x) j) lines js).
+Proof.
+  intros HL H1 H2 H3 H4 H5 H6 a Hh.
   assert (H6' : 0 <= limit_of sz (e_fac e) (e_lvl e)) by lia.
-  destruct (incident_recorded c sz b i e H1 H2 H3 H4 H5 H6') as (_ & Hn & _). destruct (Hn H7) as (Hf & _).
-  assert (Hin_e : In e (sort_by_num (all_buffered (x_bufs a)))).
-  { apply sort_in. unfold all_buffered. apply in_flat_map.
-    pose proof (trigger_buffered c sz b i e H6) as Hin. fold a in Hin. unfold buf_get, dict_of in Hin.
-    destruct (aget (e_fac e) (x_bufs a)) as [d1|] eqn:E1; [|cbn in Hin; contradiction].
-    destruct (aget (e_lvl e) d1) as [q|] eqn:E2; [|contradiction].
-    assert (G : forall V (k : Z) (l : list (Z * V)) v, aget k l = Some v -> exists k', In (k', v) l).
-    { intros V k l. induction l as [|[k' v'] t IH]; intros v Hv; [discriminate|]. cbn [aget] in Hv.
-      destruct (k =? k'); [inversion Hv; subst; exists k'; left; reflexivity|].
-      destruct (IH v Hv) as [k2 Hk2]. exists k2. right. exact Hk2. }
-    destruct (G _ _ _ _ E1) as [kf Hkf]. exists (kf, d1). split; [exact Hkf|]. cbn [snd]. apply in_flat_map.
-    destruct (G _ _ _ _ E2) as [kl Hkl]. exists (kl, q). split; [exact Hkl | exact Hin]. }
-  exists (sort_by_num (all_buffered (x_bufs a))). split; [exact Hf|]. split; [exact Hin_e|]. split.
-  - destruct (serialize_total L (header ty (payload e) []) HL) as [jh Hjh].
-    assert (He : is_event (payload e) (e_num e) (e_lvl e) (msg e)) by (apply Hp; apply sort_in; exact Hin_e).
-    destruct (trigger_fields_survive L ty [] (payload e) _ _ _ jh He Hjh) as (d & Hd & Hv). eauto.
-  - apply lines_read_back; [exact HL|]. intros x Hx. apply Hp. apply sort_in. exact Hx.
+  destruct (incident_recorded c sz b i e H1 H2 H3 H4 H5 H6' Hh) as (_ & Hn & Ht).
+  exists (sort_by_num (all_buffered (x_bufs a))).
+  split; [intros H7; destruct (Hn H7) as (Hf & _); exact Hf|].
+  split; [intros H7; destruct (Ht H7) as (Hf & _); exact Hf|].
+  split; [apply trigger_in_sorted; exact H6|]. split; [apply sort_perm|]. split.
+  - destruct (serialize_total L (header ty (payload e) []) HL) as [jh Hjh]. exists jh. split; [exact Hjh|]. split.
+    + intros n l m He. eapply trigger_fields_survive; eassumption.
+    + intros kv s v j0 He Hp Hs. eapply trigger_field_survives; eassumption.
+  - apply lines_read_back_each. exact HL.
+Qed.
+
+(* the all-lines corollary (the form of round 5): when every buffered event is an is_event the whole file reads back *)
+Corollary incident_file_reads_back_all L (payload : event -> pv) (msg : event -> Z) from rx c sz b i e : lims_ok L ->
+  (forall x, In x (all_buffered (x_bufs (add_event c sz b i e))) -> is_event (payload x) (e_num x) (e_lvl x) (msg x)) ->
+  exists js, write_lines L from rx (map payload (sort_by_num (all_buffered (x_bufs (add_event c sz b i e))))) = Some js /\
+             map line_view js = map (ev_fields msg) (sort_by_num (all_buffered (x_bufs (add_event c sz b i e)))).
+Proof.
+  intros HL Hp. apply lines_read_back; [exact HL|]. intros x Hx. apply Hp. apply sort_in. exact Hx.
 Qed.
 
 (* non-vacuity: a history (a 3000-deep value in the buffer, then a trigger) and a payload function satisfying the hypotheses *)
@@ -75,14 +115,24 @@ Definition ex_payload (x : event) : pv :=
 Example ex_incident_file_hyps :
   let c := mkCfg true false NoFault in
   let b := s_bufs (fst (run c init [Msg None 0 20 false true 0; Msg None 2 20 true true 1])) in
-  let e := mkEv 2 0 30 true 2 in
+  let e := mkEv 2 0 30 true 2 NumInt in
   (forall x, In x (all_buffered (x_bufs (add_event c [] b init_inc e))) -> is_event (ex_payload x) (e_num x) (e_lvl x) 100) /\
-  c_qual c = true /\ incident_level <= e_lvl e /\ 1 <= limit_of [] (e_fac e) (e_lvl e) /\ lims_ok cpython.
+  c_qual c = true /\ incident_level <= e_lvl e /\ 1 <= limit_of [] (e_fac e) (e_lvl e) /\ lims_ok cpython /\
+  nohost (x_bufs (add_event c [] b init_inc e)).
 Proof.
-  cbv zeta. split; [|split; [reflexivity|split; [vm_compute; discriminate|split; [vm_compute; discriminate|apply cpython_ok]]]].
+  cbv zeta. split; [|split; [reflexivity|split; [vm_compute; discriminate|split; [vm_compute; discriminate|split; [apply cpython_ok | vm_compute; reflexivity]]]]].
   intros x Hx. vm_compute in Hx.
   assert (Hb : 0 <= e_num x < 3 /\ 0 <= e_lvl x <= 30) by (repeat (destruct Hx as [<-|Hx]; [cbn; lia|]); contradiction).
   unfold ex_payload, mk_event. eexists 10, _. split; [reflexivity|]. repeat (split; [discriminate|]). split.
   - repeat constructor; eexists; reflexivity.
   - repeat split; try reflexivity; apply small_int_64; change (2 ^ 64) with 18446744073709551616; lia.
 Qed.
+
+(* the same history with a format event and a non-integer number in the buffer: the guard still holds (NumOdd is inside
+   it) although NOT every buffered event is an is_event; the per-line theorem applies *)
+Example ex_incident_file_odd_hyps :
+  let c := mkCfg true false NoFault in
+  let b := s_bufs (fst (run c init [Msg (Some (900, NumOdd)) 0 20 false true 0; Msg None 2 20 true true 1])) in
+  let e := mkEv 1 0 30 true 2 NumInt in
+  nohost (x_bufs (add_event c [] b init_inc e)) /\ existsb (fun x => negb (is_int x)) (all_buffered (x_bufs (add_event c [] b init_inc e))) = true.
+Proof. vm_compute. split; reflexivity. Qed.
